@@ -25,9 +25,9 @@ func (g *RuntimeConfig) PeerIDFromContext(ctx context.Context) (hotstuff.ID, err
 		}
 		if len(tlsInfo.State.PeerCertificates) > 0 {
 			cert := tlsInfo.State.PeerCertificates[0]
-			for replicaID := range g.replicas {
-				if subject, err := strconv.Atoi(cert.Subject.CommonName); err == nil && hotstuff.ID(subject) == replicaID {
-					return replicaID, nil
+			if subject, err := strconv.Atoi(cert.Subject.CommonName); err == nil {
+				if _, ok := g.ReplicaInfo(hotstuff.ID(subject)); ok {
+					return hotstuff.ID(subject), nil
 				}
 			}
 		}
